@@ -220,6 +220,13 @@ func (r *run) Do(op string) string {
 		r.td.TerminateByUsername(f[1], "")
 	case "termall":
 		r.td.TerminateAll(pppoe.TerminateCauseAdminReboot, "")
+	case "authfail": // what pppoe.Server does when a PAP exchange is rejected
+		s := r.names[f[1]]
+		if s == nil {
+			return "nosuch"
+		}
+		s.Authenticated = false
+		s.SetState(pppoe.StateClosed)
 	default:
 		return "badop"
 	}
@@ -244,6 +251,8 @@ func (comp) Gen(rg *rand.Rand, tier string, emit func([]string)) {
 				seq = append(seq, fmt.Sprintf("mk s%d m%d %s %s", made, 1+rg.Intn(3), hx.Pick(rg, []string{"auth", "auth", "unauth"}), hx.Pick(rg, []string{"ip", "ip", "noip"})))
 			case made == 0:
 				continue
+			case x < 38:
+				seq = append(seq, fmt.Sprintf("authfail s%d", 1+rg.Intn(made)))
 			case x < 45:
 				seq = append(seq, fmt.Sprintf("padt s%d m%d", 1+rg.Intn(made), 1+rg.Intn(3)))
 			case x < 65:
